@@ -67,7 +67,7 @@ func (prop) Drive(d *core.Driver) error {
 			}
 		}
 	}
-	bin, err := buildCoprocess(d.Scratch)
+	bin, err := driverBin(d)
 	if err != nil {
 		return err
 	}
@@ -79,7 +79,7 @@ func (prop) Drive(d *core.Driver) error {
 	}
 	nEsc := d.N(40, 400)
 	for i := 0; i < nEsc; i++ {
-		cases = append(cases, core.NewCase(fmt.Sprintf("escape-%d", i), CaseData{Kind: "escape", Seed: d.Seed*7919 + int64(i), N: 500}))
+		cases = append(cases, core.NewCase(fmt.Sprintf("escape-%d", i), CaseData{Kind: "escape", Seed: d.Seed*7919 + int64(i), N: 250}))
 	}
 	d.T.Rule = "generated Markdown documents (paragraphs with inline links in every destination form, images, autolinks, code spans, escaped brackets, reference definitions and uses, fenced and indented code, HTML blocks of every start condition, raw-text elements, comments, inline HTML, headings, block quotes, lists) with a unique token in every destination-looking span and a random base/dir, sent to the real linkDestinationReplacer through the co-process; goldmark decides what is a destination before and after; plus escape/unescape round trips over random ASCII strings. distinct_nontrivial counts distinct (generator context, destination shape, verdict) triples, verdict being rewritten/untouched × goldmark-link/not"
 	d.T.Assumptions = []string{
@@ -96,6 +96,29 @@ func (prop) Drive(d *core.Driver) error {
 	d.T.Set("generator_constructs_off", avoid)
 	d.Run(cases, core.RunOpts{Env: []string{"VERIF_C29_BIN=" + bin}})
 	return nil
+}
+
+var (
+	binOnce sync.Once
+	binPath string
+	binErr  error
+)
+
+// driverBin builds the co-process once per driver run into the run's scratch
+// directory; workers get its path through VERIF_C29_BIN.
+func driverBin(d *core.Driver) (string, error) {
+	binOnce.Do(func() { binPath, binErr = buildCoprocess(d.Scratch) })
+	return binPath, binErr
+}
+
+// ReplayCase runs one recorded case (finding witnesses, --replay) with the
+// co-process built once by the driver instead of once per worker child.
+func (prop) ReplayCase(d *core.Driver, c core.Case) core.Result {
+	bin, err := driverBin(d)
+	if err != nil {
+		return core.Result{ID: c.ID, Status: core.Inconclusive, Detail: err.Error()}
+	}
+	return d.Run([]core.Case{c}, core.RunOpts{Workers: 1, NoTally: true, Env: []string{"VERIF_C29_BIN=" + bin}})[0]
 }
 
 // avoidFor maps a finding scope (violation class) to the generator construct
@@ -204,8 +227,8 @@ type errDied struct{ detail string }
 
 func (e errDied) Error() string { return e.detail }
 
-// call sends one request. The request is logged before it is sent, so that a
-// death of the co-process is attributed to it.
+// call sends one request and waits for the answer; a death of the co-process
+// is attributed to the request (errDied).
 func call(req request) (response, error) {
 	coMu.Lock()
 	defer coMu.Unlock()
@@ -216,10 +239,11 @@ func call(req request) (response, error) {
 		}
 		co = c
 	}
+	// The request in flight is known here (calls are synchronous): if the
+	// co-process dies, the death is attributed to it by the caller, which puts
+	// the request into the violation detail; if the worker itself dies, the
+	// core's journal attributes the death to the case.
 	line, _ := json.Marshal(req)
-	if dir := os.Getenv("VERIF_SCRATCH"); dir != "" {
-		os.WriteFile(filepath.Join(dir, "c29-inflight.json"), line, 0o644)
-	}
 	_, werr := co.in.Write(append(line, '\n'))
 	var res response
 	var rerr error
